@@ -4,7 +4,7 @@ import importlib, os, re
 from vlib import common
 
 # format modules that are finished and reviewed; each is checks/<name>.py with ASPECT_THEOREMS and body(ctx)
-ENABLED = ["fmtps", "fmtpgp", "fmtpe", "fmtmsi", "fmtcab", "fmtjar", "fmtmacho", "fmtappx", "fmtapk", "fmtxar", "fmtvsix", "fmtmagic"]
+ENABLED = ["fmtps", "fmtpgp", "fmtpe", "fmtmsi", "fmtcab", "fmtjar", "fmtmacho", "fmtappx", "fmtapk", "fmtxar", "fmtvsix", "fmtmagic", "fmtcat"]
 
 LAW_THEOREMS = {  # theorems of Laws/Pipeline.v serving each property
     "C01": ["sign_then_verify"],
